@@ -53,21 +53,28 @@ pub fn check_history(n: usize, shape: &Shape, stream: &[u8], cuts: &[usize], use
     // segments
     let mut start = 0usize;
     let mut had_long = false;
+    let (mut ci_ptr, mut cs_ptr) = (0usize, 0usize);
+    // calls that consumed nothing (a whole-input hand-back) have empty ranges; skip them when searching
+    let ranges: Vec<(usize, usize)> = ranges;
     let mut resync_after_long = false;
     for (i, b) in stream.iter().enumerate() {
         if *b != 0 {
             continue;
         }
         let seg = &stream[start..=i];
-        // the call that consumed this sentinel
-        let ci = ranges.iter().position(|(a, b)| *a <= i && i < *b).unwrap();
+        // the call that consumed this sentinel (ranges are consecutive, so advance monotonically)
+        while !(ranges[ci_ptr].0 <= i && i < ranges[ci_ptr].1) {
+            ci_ptr += 1;
+        }
+        let ci = ci_ptr;
+        // first call that touched this segment
+        while ranges[cs_ptr].1 <= start {
+            cs_ptr += 1;
+        }
         if seg.len() > n {
             had_long = true;
             // some OverFull among the calls that touched [start, i]
-            let reported = ranges
-                .iter()
-                .enumerate()
-                .any(|(k, (a, b))| h.steps[k].kind == Kind::OverFull && *b > start && *a <= i && k <= ci);
+            let reported = (cs_ptr..=ci).any(|k| h.steps[k].kind == Kind::OverFull && ranges[k].1 > start && ranges[k].0 <= i);
             if !reported {
                 return Err(fail(
                     "overflow",
@@ -201,6 +208,37 @@ pub fn run(ctx: &Ctx) {
         },
         |((n, shape, stream), cuts, use_ref), l| check_history(*n, shape, stream, cuts, *use_ref, l),
     );
+    // long frames (beyond 256 bytes) on large capacities, whole and chunked
+    let nl = ctx.tier.pick(40_000, 400_000);
+    ctx.par_proptest(
+        "long-frames",
+        nl,
+        || {
+            (arb_long_frame_stream(), any::<bool>()).prop_flat_map(|((n, shape, stream), r)| {
+                let cuts = prop_oneof![Just(vec![]), arb_cuts(stream.len())];
+                (Just((n, shape, stream)), cuts, Just(r))
+            })
+        },
+        |((n, shape, stream), cuts, use_ref), l| check_history(*n, shape, stream, cuts, *use_ref, l),
+    );
+    // very long noisy histories on one accumulator: > 65536 discarded segments of each kind
+    ctx.par_range("long-noisy-histories", 6, |i, l| {
+        let (n, shape, unit): (usize, Shape, Vec<u8>) = match i {
+            0 => (8, Shape::U8, vec![0]),                      // empty frames: one DeserError each
+            1 => (8, Shape::U32, vec![9, 0]),                  // ill-formed COBS: DeserError
+            2 => (2, Shape::U8, vec![5, 5, 5, 0]),             // over-long segment: OverFull
+            3 => (4, Shape::U8, vec![2, 7, 0, 9, 9, 9, 9, 9, 0]), // alternating good frame / over-long
+            4 => (1, Shape::Unit, vec![3, 0]),                 // capacity 1
+            _ => (16, Shape::Bool, vec![2, 1, 0, 0, 4, 0]),    // good, empty, bad
+        };
+        let reps = 70_000;
+        let mut stream = Vec::with_capacity(unit.len() * reps);
+        for _ in 0..reps {
+            stream.extend_from_slice(&unit);
+        }
+        let cuts: Vec<usize> = if i % 2 == 0 { vec![] } else { (1..stream.len()).step_by(4093).collect() };
+        check_history(n, &shape, &stream, &cuts, i % 2 == 1, l)
+    });
     // pure random bytes
     ctx.par_proptest(
         "random-bytes",
